@@ -144,33 +144,37 @@ def run(ctx):
         args = dict(k=k, overlap=overlap, minlength=minlength, maxlength=maxlength)
         try:
             seen = []
-            for m in a.kbest_matches(**args):
-                seg = [int(x) for x in m.segment]
-                val = float(m.value)
-                rec = dict(idx=int(m.idx), value=val, segment=seg)
-                bad = None
-                if any(p["idx"] == rec["idx"] for p in seen):
-                    bad = "repeated end point"
-                elif seen and val < seen[-1]["value"] * (1 - 1e-12) - 1e-15:
-                    bad = "values decrease"
-                elif minlength is not None and seg[1] - seg[0] + 1 < minlength:
-                    bad = "segment shorter than minlength"
-                elif maxlength is not None and seg[1] - seg[0] + 1 > maxlength:
-                    bad = "segment longer than maxlength"
-                elif overlap == 0 and any(seg_overlap(seg, p["segment"]) > 1 for p in seen):
-                    bad = "segments overlap by more than one sample although overlap=0"
-                elif not oracle.close(val, ref[rec["idx"]]):
-                    bad = "value is not the matching function at its end point"
-                elif k is not None and len(seen) >= k:
-                    bad = "more than k matches"
-                if bad:
-                    ctx.violation("kbest-stream", reason=bad, use_c=use_c, args=args, match=rec, before=seen, **wit)
-                    break
-                seen.append(rec)
+            bound = monitors.step_bound([SubsequenceAlignment._best_matches.__code__], 400 * (c + 5) * (r + 5))
+            with bound:
+              for m in a.kbest_matches(**args):
+                  seg = [int(x) for x in m.segment]
+                  val = float(m.value)
+                  rec = dict(idx=int(m.idx), value=val, segment=seg)
+                  bad = None
+                  if any(p["idx"] == rec["idx"] for p in seen):
+                      bad = "repeated end point"
+                  elif seen and val < seen[-1]["value"] * (1 - 1e-12) - 1e-15:
+                      bad = "values decrease"
+                  elif minlength is not None and seg[1] - seg[0] + 1 < minlength:
+                      bad = "segment shorter than minlength"
+                  elif maxlength is not None and seg[1] - seg[0] + 1 > maxlength:
+                      bad = "segment longer than maxlength"
+                  elif overlap == 0 and any(seg_overlap(seg, p["segment"]) > 1 for p in seen):
+                      bad = "segments overlap by more than one sample although overlap=0"
+                  elif not oracle.close(val, ref[rec["idx"]]):
+                      bad = "value is not the matching function at its end point"
+                  elif k is not None and len(seen) >= k:
+                      bad = "more than k matches"
+                  if bad:
+                      ctx.violation("kbest-stream", reason=bad, use_c=use_c, args=args, match=rec, before=seen, **wit)
+                      break
+                  seen.append(rec)
             ctx.count("kbest_streams_checked")
             ctx.count("kbest_matches_yielded", len(seen))
             if len(ctx.samples) < 2 and len(seen) >= 2:
                 ctx.sample(dict(query=q, series=s, penalty=penalty, args=args, matches=seen))
+        except monitors.StepLimit as ex:
+            ctx.violation("kbest-stream", reason="no progress: " + str(ex), use_c=use_c, args=args, before=seen, **wit)
         except Exception as ex:
             ctx.violation("exception", fn="kbest_matches", use_c=use_c, args=args, error=repr(ex)[:300], **wit)
         # histories: interleaved generators on one object vs fresh objects
@@ -178,6 +182,8 @@ def run(ctx):
             try:
                 argl = [dict(k=rng.choice([None, 2, 3]), overlap=rng.choice([0, 1]), minlength=rng.choice([1, 2]))
                         for _ in range(rng.choice([2, 3]))]
+                hb = monitors.step_bound([SubsequenceAlignment._best_matches.__code__], 4000 * (c + 5) * (r + 5))
+                hb.__enter__()
                 fresh = []
                 for ar in argl:
                     f = SubsequenceAlignment(qa, sa_, penalty=penalty, use_c=use_c)
@@ -197,9 +203,14 @@ def run(ctx):
                         outs[g].append((int(m.idx), [int(x) for x in m.segment]))
                     except StopIteration:
                         live.remove(g)
+                hb.__exit__(None, None, None)
                 ctx.count("history_interleavings_checked")
                 if outs != fresh:
                     ctx.violation("history-dependence", use_c=use_c, args=argl, interleaved=outs, fresh=fresh, **wit)
             except Exception as ex:
+                try:
+                    hb.__exit__(None, None, None)
+                except Exception:
+                    pass
                 ctx.violation("exception", fn="kbest_matches(history)", use_c=use_c, error=repr(ex)[:300], **wit)
     ctx.count("invariant_evaluations", inv_count["n"])
